@@ -241,12 +241,15 @@ def extract_iter(
         else:
             # Only inserting new items into the stack trace; since
             # next_inner is in both `items` and `to_unwrap`, remove it
-            # from the latter (unless this is the innermost frame and
-            # next_inner is None, in which case nothing was queued)
+            # from the former (if this is the innermost frame and
+            # next_inner is None, then nothing was queued). Make sure
+            # next_inner is not deeper than the new items (so they can't
+            # prune it), but never move it deeper than the things that
+            # follow it (so that it can still prune them).
+            items = items[:-1]
             if to_unwrap:
-                to_unwrap.popleft()
-            else:
-                items = items[:-1]
+                inner_origin, inner_item, inner_depth = to_unwrap.popleft()
+                to_unwrap.appendleft((inner_origin, inner_item, min(depth, inner_depth)))
         for item in reversed(items):
             to_unwrap.appendleft((better_origin(item, None), item, depth))
 
